@@ -94,7 +94,10 @@ fn v1_owned(input: &[u8], acc: &mut Acc) {
         };
         let o = h.to_owned();
         let snap = (h.header.to_string(), h.addresses, h.protocol().to_string(), h.addresses_str().to_string(), h.to_string());
-        let equal = o == h && o.header.as_ref() == h.header.as_ref() && o.addresses == h.addresses && o.protocol() == h.protocol() && o.addresses_str() == h.addresses_str() && o.to_string() == h.to_string();
+        // `==` in both directions, `!=` (which an impl may override), and clones made either way
+        let mut c2 = v1::Header::new("", v1::Addresses::Unknown).to_owned();
+        c2.clone_from(&o);
+        let equal = o == h && h == o && !(o != h) && !(h != o) && o.clone() == h && c2 == h && h.clone().to_owned() == o && o.header.as_ref() == h.header.as_ref() && o.addresses == h.addresses && o.protocol() == h.protocol() && o.addresses_str() == h.addresses_str() && o.to_string() == h.to_string();
         Some((o, snap, equal))
     });
     acc.eval(2);
@@ -132,7 +135,15 @@ fn v2_owned(input: &[u8], acc: &mut Acc) {
         };
         let o = h.to_owned();
         let snap = (h.as_bytes().to_vec(), h.addresses, h.address_bytes().to_vec(), h.tlv_bytes().to_vec(), h.length(), h.len(), format!("{}", h), tlv_list(&h));
+        let mut c2 = o.clone();
+        c2.clone_from(&o);
         let mut equal = o == h
+            && h == o
+            && !(o != h)
+            && !(h != o)
+            && o.clone() == h
+            && c2 == h
+            && h.clone().to_owned() == o
             && o.as_bytes() == h.as_bytes()
             && o.version == h.version
             && o.command == h.command
@@ -149,7 +160,7 @@ fn v2_owned(input: &[u8], acc: &mut Acc) {
         let mut owned_tlvs = Vec::new();
         for t in h.tlvs().take(cap).flatten() {
             let ot = t.to_owned();
-            if ot != t || ot.kind != t.kind || ot.value.as_ref() != t.value.as_ref() || ot.len() != t.len() || ot.is_empty() != t.is_empty() {
+            if ot != t || !(ot == t) || !(t == ot) || ot.clone() != t || ot.kind != t.kind || ot.value.as_ref() != t.value.as_ref() || ot.len() != t.len() || ot.is_empty() != t.is_empty() {
                 equal = false;
             }
             owned_tlvs.push((ot, (t.kind, t.value.to_vec())));
